@@ -157,7 +157,10 @@ theorem track_keeps_cfg (p : Params) (pre : List Rec) (r : Rec) (blk : Nat)
     | none => rfl
     | some bs =>
       by_cases e : blk = b
-      · subst e; simp [update, hb]
+      · subst e
+        have : (recalcBlock bs rd o).cfg = bs.cfg := by
+          unfold recalcBlock; split <;> rfl
+        simp [update, hb, this]
       · simp [update, e]
   | jump t d =>
     simp only [apply]
@@ -377,6 +380,19 @@ example :
     accepts p pre = true ∧
     accepts p (pre ++ [.recalc 0 39600008000 false]) = false ∧
     accepts p (pre ++ [.recalc 0 39600000300 false, .probe 39600010000 0 false]) = true := by
+  decide
+
+/-- one alarm (10:00), two blocks; the output event of block 0 reconfigures block 1 inside the alarm
+    processing (its `config` reading is 2 µs later), then cron hands the older reading to block 1:
+    accepted because it yields the same output; a different output would be rejected -/
+example :
+    let p : Params := { cal := toyCal, lam := 5000, bound := 3600005000 }
+    let c0 : Cfg := .timedate ⟨some [(36000000000, 39600000000)], none, none⟩
+    let c1 : Cfg := .timedate ⟨some [(43200000000, 46800000000)], none, none⟩
+    let pre := [Rec.config 0 c0 32400000000 false, .config 1 c0 32400000002 false,
+                .recalc 0 36000000002 true, .config 1 c1 36000000004 false]
+    accepts p (pre ++ [.recalc 1 36000000002 false, .probe 36000010000 1 false]) = true ∧
+    accepts p (pre ++ [.recalc 1 36000000002 true]) = false := by
   decide
 
 end Edzed.Cron
